@@ -25,6 +25,14 @@
 //!                    `2 n c*` add_text, `3 n c*` add_word, `4` add_space, `5` new_paragraph.
 //!                    Every call gets its own list; every word's segment is judged against the
 //!                    font active at that point (items, glyphs, spelling, font id of each node).
+//!   `z <via> <P> | <WS>` a large program (many characters sharing a long chain: up to 65 536 pairs)
+//!                    compiled directly (`via = 0`) or through `File::replace_lig_kern_program` +
+//!                    `compile_from_tfm_file` (`via = 1`); the driver evaluates only the pairs the
+//!                    words use (`runsz`).
+//!   `r <raw> | <WS>` raw TFM lig/kern words (`nW (skip next op rem)* nT (c e)* nK k*`: redirect words
+//!                    anywhere, used as entry points and run into by other chains) wrapped into a
+//!                    well-formed TFM file: real bytes through `File::deserialize` +
+//!                    `compile_from_tfm_file`; M = `decodeFont` (theorem `raw_rule`), S as for `p`.
 //!   `f <path>`       a corpus font (path relative to /repo): real bytes through
 //!                    `tfm::File::deserialize` and `CompiledProgram::compile_from_tfm_file`;
 //!                    words = every ruled pair, and every ruled pair followed by a third letter.
@@ -262,8 +270,10 @@ fn show_pairs(s: &BTreeSet<(i64, i64)>) -> String {
 struct Opt {
     no_lb: bool,
     ov: i64,
+    /// a very large program: the driver evaluates only the pairs the words use (`runsz`)
+    big: bool,
 }
-const DEFAULT: Opt = Opt { no_lb: false, ov: -1 };
+const DEFAULT: Opt = Opt { no_lb: false, ov: -1, big: false };
 
 struct C05 {
     fonts: Vec<String>,
@@ -528,7 +538,7 @@ impl C05 {
         if words.is_empty() {
             return;
         }
-        let mut req = format!("runsx {} {} {penc}", opt.no_lb as i64, opt.ov);
+        let mut req = if opt.big { format!("runsz {penc}") } else { format!("runsx {} {} {penc}", opt.no_lb as i64, opt.ov) };
         for (w, e) in words.iter().zip(real) {
             req.push_str(&format!(" | {} {} | {}", w.len(), join(w), join(e)));
         }
@@ -1135,6 +1145,121 @@ fn text_of(rng: &mut Rng, ws: &[Vec<i64>]) -> Vec<i64> {
     t
 }
 
+/// A minimal, well-formed TFM file around given lig/kern data: header of two words (design size
+/// 10pt), characters 0..=255 all existing with width index 1, the lig/kern words, the kerns.
+/// `tags`: (char, remainder) for the characters whose tag is 1.
+fn tfm_bytes_of(words: &[[u8; 4]], tags: &[(i64, i64)], kerns: &[i64]) -> Vec<u8> {
+    let (lh, bc, ec, nw, nh, nd, ni, ne, np) = (2u16, 0u16, 255u16, 2u16, 1u16, 1u16, 1u16, 0u16, 0u16);
+    let (nl, nk) = (words.len() as u16, kerns.len() as u16);
+    let lf = 6 + lh + (ec - bc + 1) + nw + nh + nd + ni + nl + nk + ne + np;
+    let mut b: Vec<u8> = vec![];
+    for v in [lf, lh, bc, ec, nw, nh, nd, ni, nl, nk, ne, np] {
+        b.extend(v.to_be_bytes());
+    }
+    b.extend([0, 0, 0, 0]);
+    b.extend((10_i32 << 20).to_be_bytes());
+    for c in 0..256i64 {
+        match tags.iter().find(|t| t.0 == c) {
+            Some((_, e)) => b.extend([1, 0, 1, *e as u8]),
+            None => b.extend([1, 0, 0, 0]),
+        }
+    }
+    b.extend([0, 0, 0, 0]);
+    b.extend((1_i32 << 20).to_be_bytes());
+    b.extend([0u8; 12]); // height, depth, italic correction
+    for w in words {
+        b.extend(w);
+    }
+    for k in kerns {
+        b.extend((*k as i32).to_be_bytes());
+    }
+    debug_assert_eq!(b.len(), lf as usize * 4);
+    b
+}
+
+/// Raw lig/kern words the way no PLtoTF writes them but TeX reads them all the same: redirect
+/// words (skip byte > 128) anywhere in the array, used as entry points by some characters and
+/// run into by other characters' chains (skip 0 / SKIP n), followed by more instructions;
+/// optional boundary-char word first and left-boundary word last.
+fn random_raw(rng: &mut Rng) -> (Vec<[u8; 4]>, Vec<(i64, i64)>, Vec<i64>) {
+    let k = 2 + rng.below(4);
+    let letter = |rng: &mut Rng| (A as u64 + rng.below(k)) as u8;
+    let nl = 2 + rng.below(14) as usize;
+    let nk = 1 + rng.below(3) as usize;
+    let kerns: Vec<i64> = (0..nk).map(|_| *rng.pick(&[1i64 << 19, -(1 << 18), 1 << 20, 0])).collect();
+    let mut words: Vec<[u8; 4]> = vec![];
+    for i in 0..nl {
+        if rng.chance(1, 5) {
+            // a redirect word; its target is usually a later word, sometimes any word or out of range
+            let t = match rng.below(10) {
+                0 => rng.below(nl as u64 + 2) as usize,
+                1 => rng.below(nl as u64) as usize,
+                _ => (i + 1 + rng.below(3) as usize).min(nl - 1),
+            };
+            let skip = *rng.pick(&[254u8, 254, 200, 129, 255]);
+            words.push([skip, letter(rng), (t / 256) as u8, (t % 256) as u8]);
+        } else {
+            let skip = *rng.pick(&[0u8, 0, 0, 0, 128, 128, 1, 2, 3]);
+            let (op, rem) = if rng.chance(1, 3) {
+                (128u8, rng.below(nk as u64 + 1) as u8) // kern, index sometimes one past the end
+            } else {
+                (*rng.pick(&[0u8, 1, 2, 3, 5, 6, 7, 11, 0, 5, 6, 11, 4, 9]), letter(rng))
+            };
+            words.push([skip, letter(rng), op, rem]);
+        }
+    }
+    if rng.chance(1, 3) {
+        words[0] = [255, letter(rng), 0, 0]; // boundary char carrier
+    }
+    if rng.chance(1, 3) {
+        let t = rng.below(nl as u64) as usize;
+        let last = words.len() - 1;
+        words[last] = [255, 0, (t / 256) as u8, (t % 256) as u8]; // left-boundary program
+    }
+    let mut tags = vec![];
+    let redirects: Vec<usize> = (0..nl).filter(|i| words[*i][0] > 128).collect();
+    for c in 0..k {
+        if rng.chance(4, 5) {
+            // half of the characters start at a redirect word when there is one
+            let e = if !redirects.is_empty() && rng.chance(1, 2) { *rng.pick(&redirects) } else { rng.below(nl as u64 + 1) as usize };
+            tags.push((A + c as i64, e as i64));
+        }
+    }
+    (words, tags, kerns)
+}
+
+/// A large program: `n` characters (and sometimes the left boundary) share one chain of `m`
+/// instructions with distinct right characters: `n·m` pairs. Kerns and the ligature forms that
+/// leave nothing pending only, so no pair can loop.
+fn big_prog(rng: &mut Rng, n: usize, m: usize) -> (Prog, Vec<Vec<i64>>) {
+    let mut chars: Vec<i64> = (0..256).collect();
+    for i in (1..chars.len()).rev() {
+        chars.swap(i, rng.below(i as u64 + 1) as usize);
+    }
+    let lefts: Vec<i64> = chars[..n].to_vec();
+    for i in (1..chars.len()).rev() {
+        chars.swap(i, rng.below(i as u64 + 1) as usize);
+    }
+    let rights: Vec<i64> = chars[..m].to_vec();
+    let mut p = Prog { rb: -1, lb: if rng.chance(1, 3) { 0 } else { -1 }, entries: lefts.iter().map(|c| (*c, 0)).collect(), kerns: vec![], instrs: vec![] };
+    p.entries.sort();
+    for (i, r) in rights.iter().enumerate() {
+        let next = if i + 1 == m { -1 } else { 0 };
+        if rng.chance(1, 6) {
+            p.instrs.push([next, *r, 2, *rng.pick(&rights), *rng.pick(&[2i64, 4, 6, 7])]);
+        } else {
+            p.instrs.push([next, *r, 0, *rng.pick(&[1i64 << 19, -(1 << 18), 1 << 20, 3]), 0]);
+        }
+    }
+    let words = (0..8)
+        .map(|_| {
+            let len = 2 + rng.below(3) as usize;
+            (0..len).map(|i| if i % 2 == 0 { *rng.pick(&lefts) } else { *rng.pick(&rights) }).collect()
+        })
+        .collect();
+    (p, words)
+}
+
 fn case_of(kind: &str, p: &Prog, ws: &WordSet) -> String {
     format!("{kind} {} | {}", join(&p.enc()), ws.enc())
 }
@@ -1157,6 +1282,8 @@ impl Property for C05 {
          o: half (thorough: all) of the one-rule programs x font boundary none/'a' x override 'a'/'b'/'z' x left boundary on/disabled on all words <= 3, and random programs under a random override (none, the font boundary, a right char of some rule, 'z', '|', a non-u8 char) and random disable_left_boundary; \
          t: every one-rule program x right boundary none/'a' on a text of all 12 words of one and two letters, and random valid programs on random texts (half the words one letter; double, leading, trailing spaces), through the real boxworks_text::TextPreprocessorImpl::add_text; every corpus font also through add_text on its own boundary pairs as one-letter words; \
          m: two one-rule fonts (and 2..3 random valid programs) on one preprocessor under scripts of add_text / add_word / add_space / new_paragraph with activate_font between them, words drawn from a small pool so that every word recurs under the same and under another font; one builtin case with smfebsl10 + cmr10; \
+         z: 12 large programs (n characters sharing a chain of m instructions, n*m pairs from 1 024 to 65 536, straddling 4 096 and 5 003), 8 words each; \
+         r: random raw TFM lig/kern words (redirect words mid-array, used as entry points, fallen into by other chains, boundary words first/last, kern indices and redirect targets out of range) as real TFM bytes through deserialize + compile_from_tfm_file; \
          k: random programs through the real replace_lig_kern_program/compile_from_tfm_file (pack_entrypoints, unpack_entrypoint), a quarter padded to > 255 instructions; f: every corpus .tfm through deserialize + compile_from_tfm_file on every ruled pair and ruled pair + third letter. \
          Non-trivial = the program has at least one rule that applies to some word of the case (some output item is a kern or ligature, or a pair loops); distinct = distinct case string."
             .into()
@@ -1382,6 +1509,47 @@ impl Property for C05 {
             let fonts: Vec<String> = progs.iter().map(|p| format!("prog {}", join(&p.enc()))).collect();
             v.push(format!("m {nf} | {} | {}", fonts.join(" | "), script.join(" | ")));
         }
+        // z: the size dimension. Many characters sharing a long chain: pair counts around and above
+        // the sizes tables tend to have (1 024, 4 096, tftopl's hash_size 5 003, 16 384, 65 536).
+        let mut rz = rng.fork();
+        let sizes: &[(usize, usize)] = &[(32, 32), (45, 23), (64, 64), (63, 65), (70, 71), (71, 71), (72, 72), (100, 100), (128, 128), (181, 181), (255, 256), (256, 256)];
+        for (i, (n, m)) in sizes.iter().enumerate() {
+            let (p, ws) = big_prog(&mut rz, *n, *m);
+            v.push(format!("z {} {}", i % 2, &case_of("p", &p, &WordSet::List(ws))[2..]));
+        }
+        if ctx.thorough {
+            for _ in 0..40 {
+                let n = 1 + rz.below(256) as usize;
+                let m = 1 + rz.below(256) as usize;
+                let (p, ws) = big_prog(&mut rz, n, m);
+                v.push(format!("z {} {}", rz.below(2), &case_of("p", &p, &WordSet::List(ws))[2..]));
+            }
+        }
+        // r: raw TFM words (redirect words in the middle of the array, used as entry points and
+        // run into by other chains), through real bytes: deserialize + compile_from_tfm_file
+        let mut rr2 = rng.fork();
+        for _ in 0..(if ctx.thorough { 15_000 } else { 1_500 }) {
+            let (words, tags, kerns) = random_raw(&mut rr2);
+            let mut v2: Vec<i64> = vec![words.len() as i64];
+            for w in &words {
+                v2.extend(w.iter().map(|x| *x as i64));
+            }
+            v2.push(tags.len() as i64);
+            for (c, e) in &tags {
+                v2.extend([*c, *e]);
+            }
+            v2.push(kerns.len() as i64);
+            v2.extend(&kerns);
+            let mut alpha: Vec<i64> = words.iter().flat_map(|w| [w[1] as i64, w[3] as i64]).filter(|c| *c >= A && *c < A + 6).collect();
+            alpha.extend(tags.iter().map(|t| t.0));
+            alpha.sort();
+            alpha.dedup();
+            if alpha.is_empty() {
+                alpha.push(A);
+            }
+            let ws: Vec<Vec<i64>> = (0..10).map(|_| (0..1 + rr2.below(5)).map(|_| *rr2.pick(&alpha)).collect()).collect();
+            v.push(format!("r {} | {}", join(&v2), WordSet::List(ws).enc()));
+        }
         let mut rk = rng.fork();
         for _ in 0..nk {
             let mut p = random_prog(&mut rk);
@@ -1601,8 +1769,13 @@ impl C05 {
     fn load_font_file(&self, rel: &str, drv: &mut Driver, out: &mut CaseOutcome) -> Option<(tfm::File, CompiledProgram, Vec<tfm::ligkern::InfiniteLoopError>, Prog)> {
         let path = format!("{}/{}", self.repo(), rel);
         let bytes = std::fs::read(&path).unwrap_or_else(|e| panic!("cannot read {path}: {e}"));
+        self.load_font_bytes(&bytes, rel, drv, out)
+    }
+
+    #[allow(clippy::type_complexity)]
+    fn load_font_bytes(&self, bytes: &[u8], rel: &str, drv: &mut Driver, out: &mut CaseOutcome) -> Option<(tfm::File, CompiledProgram, Vec<tfm::ligkern::InfiniteLoopError>, Prog)> {
         let r = caught(|| {
-            let (f, _) = tfm::File::deserialize(&bytes);
+            let (f, _) = tfm::File::deserialize(bytes);
             f.ok().map(|mut f| {
                 let (cp, errs) = CompiledProgram::compile_from_tfm_file(&mut f);
                 (f, cp, errs)
@@ -1625,7 +1798,7 @@ impl C05 {
                     .collect();
                 let mut q = Prog::from_real(&f.lig_kern_program, &entries, &f.kerns);
                 // the program as the crate read it must be the program in the file's raw words
-                q = check_raw_decode(&bytes, &q, rel, drv, out);
+                q = check_raw_decode(bytes, &q, rel, drv, out);
                 let ds = f.header.design_size;
                 let ok = caught(|| {
                     for k in q.kerns.iter_mut() {
@@ -1651,9 +1824,9 @@ impl C05 {
                     let mut it = rest.splitn(3, ' ');
                     let a: i64 = it.next().unwrap().parse().expect("nolb");
                     let b: i64 = it.next().unwrap().parse().expect("override");
-                    (Opt { no_lb: a != 0, ov: b }, it.next().unwrap_or(""))
+                    (Opt { no_lb: a != 0, ov: b, big: false }, it.next().unwrap_or(""))
                 } else {
-                    (Opt { no_lb: cmd == "n", ov: -1 }, rest)
+                    (Opt { no_lb: cmd == "n", ov: -1, big: false }, rest)
                 };
                 if cmd == "o" {
                     out.tag("stream:run-options");
@@ -1953,6 +2126,106 @@ impl C05 {
                 out.tags.sort();
                 out.tags.dedup();
                 out.nontrivial = out.tags.iter().any(|t| t == "text:ligature" || t == "text:kern");
+                out
+            }
+            "z" => {
+                out.tag("stream:large-programs");
+                let (via, rest) = rest.split_once(' ').unwrap_or(("0", rest));
+                let parts: Vec<&str> = rest.split('|').collect();
+                let prog = Prog::dec(&parse_i64s(parts[0]));
+                let words = WordSet::dec(&parts[1..]).words();
+                let (real, entries, kerns) = prog.to_real();
+                let ds = design_size();
+                let n_lefts = prog.entries.len() + (prog.lb >= 0) as usize;
+                out.tag(format!("large:pairs~{}", match n_lefts * prog.instrs.len() {
+                    0..=1023 => "<1024",
+                    1024..=4095 => "1024..4095",
+                    4096..=5002 => "4096..5002",
+                    5003..=16383 => "5003..16383",
+                    16384..=65535 => "16384..65535",
+                    _ => ">=65536",
+                }));
+                let r = caught(|| {
+                    if via == "1" {
+                        let mut f = tfm::File::default();
+                        f.header.design_size = ds;
+                        f.replace_lig_kern_program(real.clone(), entries.clone());
+                        CompiledProgram::compile_from_tfm_file(&mut f)
+                    } else {
+                        CompiledProgram::compile(&real, ds, &kerns, entries.clone())
+                    }
+                });
+                match r {
+                    Err(p) => out.fail(Kind::ImplPanic, "large", format!("panic {}", strip_msg(&p)), format!("compile panicked: {p}")),
+                    Ok((cp, errs)) => {
+                        // built from kerns and non-pending ligature forms only: nothing can loop
+                        if !errs.is_empty() {
+                            out.fail(Kind::ImplVsSpec, "large", "loop report: spurious", format!("{errs:?}"));
+                        }
+                        let Ok(e) = prog.enc_scaled(ds) else {
+                            out.tag("skipped:to_scaled-panic(C17)");
+                            return out;
+                        };
+                        let mut real_items: Vec<Vec<i64>> = vec![];
+                        for w in &words {
+                            let s = word_string(w);
+                            match caught(|| cp.run(&s).take(MAX_ITEMS).collect::<Vec<RunItem>>()) {
+                                Ok(items) => {
+                                    if items.iter().any(|i| !matches!(i, RunItem::Char(_))) {
+                                        out.tag("item:kern-or-ligature");
+                                    }
+                                    real_items.push(enc_items(&items));
+                                }
+                                Err(p) => {
+                                    out.fail(Kind::ImplPanic, "large", format!("panic {}", strip_msg(&p)), format!("run({s:?}) panicked: {p}"));
+                                    return out;
+                                }
+                            }
+                        }
+                        self.judge("large", "run", &join(&e), &words, &real_items, true, "", Opt { big: true, ..DEFAULT }, drv, &mut out);
+                    }
+                }
+                out.nontrivial = true;
+                out
+            }
+            "r" => {
+                out.tag("stream:raw-tfm-words");
+                let parts: Vec<&str> = rest.split('|').collect();
+                let v = parse_i64s(parts[0]);
+                let mut i = 0;
+                let mut next = || {
+                    let x = v[i];
+                    i += 1;
+                    x
+                };
+                let nw = next();
+                let words_raw: Vec<[u8; 4]> = (0..nw).map(|_| [next() as u8, next() as u8, next() as u8, next() as u8]).collect();
+                let nt = next();
+                let tags: Vec<(i64, i64)> = (0..nt).map(|_| (next(), next())).collect();
+                let nk = next();
+                let kerns: Vec<i64> = (0..nk).map(|_| next()).collect();
+                let words = WordSet::dec(&parts[1..]).words();
+                let bytes = tfm_bytes_of(&words_raw, &tags, &kerns);
+                // shape of the raw program, for the histogram
+                for (k, w) in words_raw.iter().enumerate() {
+                    if w[0] > 128 && k > 0 && k + 1 < words_raw.len() {
+                        out.tag("raw:redirect-word-mid-array");
+                        if tags.iter().any(|t| t.1 == k as i64) {
+                            out.tag("raw:mid-array-redirect-is-an-entry-point");
+                            if words_raw[k - 1][0] == 0 {
+                                out.tag("raw:entry-point-redirect-run-into-by-fall-through");
+                            }
+                        }
+                    }
+                }
+                match self.load_font_bytes(&bytes, "generated raw words", drv, &mut out) {
+                    None => {}
+                    Some((_f, cp, errs, q)) => {
+                        let penc = join(&q.enc());
+                        self.compare("raw", &q, &cp, &errs, &words, drv, &mut out, &penc, "", DEFAULT);
+                    }
+                }
+                out.nontrivial = out.tags.iter().any(|t| t.starts_with("item:") || t == "loop:some-pair-loops");
                 out
             }
             "f" => {
